@@ -367,14 +367,25 @@ fn do_run(routes: &str, msgs: &str) -> String {
         for (p, id) in &routes {
             dc.add_handler(p, scripted(Some(*id)));
         }
-        match dc.run() {
-            Ok(()) => "ok",
-            Err((None, _)) => "conn",
-            Err((Some(_), HandleError::User(()))) => "handler",
-            Err((Some(_), _)) => "other",
+        // run() returns at every failing handler; the caller "may choose to just call this function
+        // again": do so until the connection is closed, so that what a failed handler left behind
+        // (its routes must be gone) is observable on the following messages
+        let mut ends = Vec::new();
+        loop {
+            let e = match dc.run() {
+                Ok(()) => "ok",
+                Err((None, _)) => "conn",
+                Err((Some(_), HandleError::User(()))) => "handler",
+                Err((Some(_), _)) => "other",
+            };
+            ends.push(e);
+            if e != "handler" || ends.len() > 64 {
+                break;
+            }
         }
+        ends.join(",")
     });
-    let end = t.join().unwrap_or("panic");
+    let end = t.join().unwrap_or_else(|_| "panic".to_string());
     // the connection is closed now: read what was written until end of stream
     let mut bytes = Vec::new();
     let mut chunk = [0u8; 4096];
